@@ -1,6 +1,6 @@
 CONSTANTS
   Files = {"a.py", "docs/c.md"}
-  Lics = {"MIT", "0BSD", "LicenseRef-x"}
+  Lics = {"MIT", "0BSD"}
   GlobFiles = {"docs/c.md"}
   GlobLic = "0BSD"
   MaxCmds = 1
@@ -14,4 +14,7 @@ PROPERTY Monotone
 PROPERTY ReadersReadOnly
 PROPERTY ConversionKeepsAttribution
 PROPERTY OnlyConvertMovesGlob
+PROPERTY SiblingsOnlyGrow
+PROPERTY SkipExistingLeavesDeclaringTextsAlone
+INVARIANT LintFileVsLint
 CHECK_DEADLOCK FALSE
